@@ -169,6 +169,7 @@ class MovingWindow(BackgroundService):
 
         self._resampler: Resampler | None = None
         self._resampler_sender: Sender[Sample[Quantity]] | None = None
+        self._resampler_sources: list[Receiver[Sample[Quantity]]] = []
 
         if resampler_config:
             assert (
@@ -359,12 +360,30 @@ class MovingWindow(BackgroundService):
 
         resampler_channel = Broadcast[Sample[Quantity]](name="average")
         self._resampler_sender = resampler_channel.new_sender()
-        self._resampler.add_timeseries(
-            "avg", resampler_channel.new_receiver(), sink_buffer
-        )
+        resampler_source = resampler_channel.new_receiver()
+        self._resampler_sources.append(resampler_source)
+        self._resampler.add_timeseries("avg", resampler_source, sink_buffer)
         self._tasks.add(
             asyncio.create_task(self._resampler.resample(), name="resample")
         )
+
+    async def stop(self, msg: str | None = None) -> None:
+        """Stop the MovingWindow.
+
+        This cancels the MovingWindow tasks and, if a resampler is used, also the
+        tasks spawned by the resampler to receive the samples to resample.
+
+        Args:
+            msg: The message to be passed to the tasks being cancelled.
+        """
+        try:
+            await super().stop(msg)
+        finally:
+            if self._resampler:
+                await self._resampler.stop()
+                for source in self._resampler_sources:
+                    self._resampler.remove_timeseries(source)
+                self._resampler_sources.clear()
 
     def count_valid(self) -> int:
         """
